@@ -48,6 +48,12 @@ def load_triple(rng, scale=1.0, allow_none=True):
     return [N[i] if keep[i] else (None if none else 0.0) for i in range(3)]
 
 
+def unit_scale(rng, prob=0.3):
+    """a common factor for all matrices of one eigen / linear problem: the same structure described in another unit system
+    (GN and GPa instead of N and Pa ...) - relations between the matrices are unchanged, absolute magnitudes are not"""
+    return float(10 ** rng.uniform(-14, 3)) if rng.random() < prob else 1.0
+
+
 def vec_repr(rng, v, lists=True):
     """the same amplitude vector in another in-memory representation (what callers really pass: a column of a mode
     matrix, a strided slice, a list); returns (object, kind).  Read-only arrays are left out: the compiled kernels
